@@ -254,6 +254,11 @@ class World:
         if isinstance(v, pytypes.ModuleType):
             return v
         if isinstance(v, pytypes.FunctionType):
+            if v.__qualname__ == "lazylist.<locals>.wrapped" and v.__closure__:
+                # @lazylist only wraps the generator's result in LazyList (dropped by the extraction, DESIGN 9.1)
+                inner = [c.cell_contents for c in v.__closure__ if isinstance(c.cell_contents, pytypes.FunctionType)]
+                if len(inner) == 1:
+                    return self.wrap_global(inner[0], name)
             mod = sys.modules.get(v.__module__)
             f = getattr(mod, "__file__", "") or ""
             if f.startswith(self.repo):
@@ -327,6 +332,12 @@ class World:
         raise OutOfSubset("isinstance on an opaque value")
 
     def type_of(self, ex, v):
+        from .state import Ref, ListCell
+
+        if isinstance(v, Ref) and isinstance(ex.p.cell(v), ListCell):
+            return list  # the class object: `type(x) is list` / `is str` are then decided by CPython identity
+        if isinstance(v, SV) and v.ty.kind in ("int", "str", "bool"):
+            return {"int": int, "str": str, "bool": bool}[v.ty.kind]
         raise OutOfSubset("type()")
 
     def py_repr(self, v, ex):
